@@ -1,0 +1,89 @@
+//go:build verif
+
+// Contracts for package server, read by /verif/govc. Comment lines starting with
+// "//@" are specifications; the Go functions below are executable forms of the
+// specification predicates, used as runtime oracles by replays.
+package server
+
+import (
+	"github.com/resgateio/resgate/server/codec"
+	"github.com/resgateio/resgate/server/rescache"
+	"github.com/resgateio/resgate/server/reserr"
+)
+
+var _ = codec.IsValidRID
+var _ = rescache.NewThrottle
+var _ = reserr.ErrAccessDenied
+
+// --- status mapping (C17) ------------------------------------------------------
+
+// predStatusOf: the fixed error-code to HTTP-status table.
+//@ define predStatusOf(code string) int = ite(code == "system.notFound" || code == "system.methodNotFound" || code == "system.timeout", 404,
+//@     ite(code == "system.accessDenied", 401, ite(code == "system.forbidden", 403, ite(code == "system.methodNotAllowed", 405,
+//@     ite(code == "system.subjectTooLong", 414, ite(code == "system.internalError", 500, ite(code == "system.serviceUnavailable", 503, 400)))))))
+
+//@ func errorStatus
+//@   requires reserr.predErrOK(err)
+//@   ensures[C17] result0 != nil && result1 == predStatusOf(result0.Code)
+//@   ensures[C17] typeis(err, *reserr.Error) ==> result0 == err.(*reserr.Error)
+//@   ensures[C17] !typeis(err, *reserr.Error) ==> result1 == 500
+//@   assigns nothing
+//@   safety[C15]
+
+// --- origins (C17) -------------------------------------------------------------
+
+//@ define predLower(b byte) byte = ite('A' <= b && b <= 'Z', b + 32, b)
+
+// predOriginEq(s, o): s equals o with ASCII upper case letters of o lowered.
+//@ define predOriginEq(s string, o string) bool = len(s) == len(o) && (forall k int :: 0 <= k && k < len(s) ==> s[k] == predLower(o[k]))
+
+//@ func matchesOrigins
+//@   ensures[C17] result == (exists j int :: 0 <= j && j < len(os) && predOriginEq(os[j], o))
+//@   assigns nothing
+//@   safety[C15]
+//@   loop 1 invariant forall j int :: 0 <= j && j < rangeidx1 ==> !predOriginEq(os[j], o)
+//@   loop 2 invariant 0 <= i && i <= len(s) && len(s) == len(o)
+//@   loop 2 invariant forall k int :: 0 <= k && k < i ==> s[k] == predLower(o[k])
+
+// --- resource ids --------------------------------------------------------------
+
+//@ func parseRID
+//@   ensures[C10,C14] (forall k int :: 0 <= k && k < len(rid) ==> rid[k] != '?') ==> name == rid && query == ""
+//@   ensures[C10,C14] (exists k int :: 0 <= k && k < len(rid) && rid[k] == '?') ==>
+//@       (exists f int :: 0 <= f && f < len(rid) && rid[f] == '?' && (forall k int :: 0 <= k && k < f ==> rid[k] != '?') &&
+//@           name == rid[:f] && query == rid[f+1:])
+//@   assigns nothing
+//@   safety[C15]
+
+//@ func containsString
+//@   ensures[C16] result == (exists j int :: 0 <= j && j < len(path) && path[j] == rid)
+//@   assigns nothing
+//@   safety[C15]
+//@   loop 1 invariant forall j int :: 0 <= j && j < rangeidx1 ==> path[j] != rid
+
+// SpecOriginEq is the executable form of predOriginEq.
+func SpecOriginEq(s, o string) bool {
+	if len(s) != len(o) {
+		return false
+	}
+	for k := 0; k < len(s); k++ {
+		c := o[k]
+		if 'A' <= c && c <= 'Z' {
+			c += 'a' - 'A'
+		}
+		if s[k] != c {
+			return false
+		}
+	}
+	return true
+}
+
+// SpecMatchesOrigins is the executable oracle of matchesOrigins.
+func SpecMatchesOrigins(os []string, o string) bool {
+	for _, s := range os {
+		if SpecOriginEq(s, o) {
+			return true
+		}
+	}
+	return false
+}
